@@ -15,6 +15,7 @@ mod c10;
 mod c16;
 mod c17;
 mod c17_corpus;
+mod c17_extra;
 mod serrec;
 mod c20;
 mod c13;
